@@ -93,8 +93,11 @@ def render(ctx):
     if ctx.exc is not None or not ctx.post.flags["building"]:
         return []
     snap, w = ctx.post, ctx.world
-    if any(not c.slots for c in snap.channels.values()):
+    if all(not c.slots for c in snap.channels.values()):
         return []
+    if any(not c.slots for c in snap.channels.values()):
+        # a Local channel declared without an initial target and never targeted: a valid, empty channel of duration 0
+        ctx.act["states_with_a_never_targeted_channel"] += 1
     from pulser.sampler import sample
 
     k = ctx.op[0]
@@ -106,6 +109,12 @@ def render(ctx):
         except Exception as e:
             return [(f"C06:sample-raises:{type(e).__name__}", repr(e)[:200])]
         T = max(c.end for c in snap.channels.values())
+        try:
+            sampled = list(ss.channel_samples)
+        except Exception as e:
+            return [(f"C06:channel-samples-unreadable:{type(e).__name__}", repr(e)[:200])]
+        if sampled != list(snap.channels):
+            return [(f"C06:sampled-channels-differ-from-declared:{k}", f"declared {list(snap.channels)}, sampled {sampled}")]
         # 1. per channel arrays
         for name, ch in snap.channels.items():
             cs = ss.channel_samples[name]
@@ -225,6 +234,10 @@ def plan(tier, seed):
          A.render(dmm="dmm_0", eom=False), 3),
         (corner("unit8", prefix=A.GR, qubits=3, qid_alias={"q0": "z", "q1": "a", "q2": "m"}, name="unit8-str-ids-out-of-order"),
          A.render(l="r"), 2),
+        # a spare Local channel declared FIRST, without an initial target and never targeted (no slot at all), next to used channels
+        (corner("real", prefix=[("declare", "s", "rydberg_local")] + A.GL, qubits=3, name="real-spare-untargeted-channel-first"), A.render(), 2),
+        (corner("unit8", prefix=[("declare", "g", "rydberg_global"), ("declare", "s", "raman_local"), ("declare", "r", "rydberg_local", "q0")], qubits=3,
+                name="unit8-spare-untargeted-channel-between"), A.render(l="r"), 2),
     ]
     if tier == "thorough":
         worlds = [(w, a, d + 1) for w, a, d in worlds]
